@@ -242,7 +242,7 @@ class FakeRequestSocket:
         if not self.delivered:
             self.delivered = True
             return self.datagram[:n], CLI
-        self.closed.wait(0.02)            # real time; the virtual clock belongs to the transfer
+        self.closed.wait(0.001)           # real time; the virtual clock belongs to the transfer
         raise self.timeout_class("timed out")
 
     def recvmsg(self, n, ancsize=0, flags=0):
@@ -269,9 +269,11 @@ def _join(t, log):
 
 def run_transfer(script, handler, options, mode="octet", default_timeout=2, max_timeout=30,
                  max_retries=1, max_block_size=65464, wrap=0, filename="f", context=None, shared_log=None, proc=0,
-                 sock_class=None):
+                 sock_class=None, public=False):
     """
     Run one real transfer to completion under the fake socket.
+    public=True: through TftpServer(...).start() whatever the configuration (the constructor's clamping is then part
+    of what is observed).
     script: list of (t_ticks, addr, datagram).  handler(filename, client, server, context) -> file object.
     Returns the event log: ("send", t, addr, data) | ("recv", ...) | ("timeout", t) | ("close_sock",) |
     ("logexc", class)
@@ -288,8 +290,8 @@ def run_transfer(script, handler, options, mode="octet", default_timeout=2, max_
             if not a:
                 log.append(("timeout", int(round(clock[0] * TICK))))
 
-    cls = private_class()
-    if cls is None and not public_domain(default_timeout, max_timeout, max_retries, max_block_size, wrap):
+    cls = None if public else private_class()
+    if cls is None and not public and not public_domain(default_timeout, max_timeout, max_retries, max_block_size, wrap):
         raise DriverUnavailable("the private transfer class is not available with the known signature and the public "
                                 "constructor would change this configuration")
     request_sockets = []
